@@ -328,7 +328,8 @@ pub async fn server_pipeline(app: Rc<App>, cfg: &Cfg3, sinks: Rc<RefCell<Vec<v3:
             async move {
                 // a service factory that takes its time (only when held)
                 app.wait(G_FACT, 0).await;
-                Ok::<_, AppErr>(fn_service(move |p: v3::Publish| publish_handler(app.clone(), p, 0)))
+                let gate_app = app.clone();
+                Ok::<_, AppErr>(GatedReady { inner: fn_service(move |p: v3::Publish| publish_handler(app.clone(), p, 0)), app: gate_app })
             }
         }));
         let svc = ServiceFactory::<IoBoxed, SharedCfg>::create(&srv, shared).await.expect("server factory");
